@@ -25,10 +25,13 @@ theorem frame_reader_step (bs : Bytes) (t : PktType) :
     (∀ f rest, FrameReader.next t bs = .frame f rest → rest.length < bs.length) :=
   next_step bs t
 
-/-- After an error `FrameReader` does NOT advance (unlike `PacketReader` it keeps its buffer): a caller must
-stop at the first error, as `read_plain_packet` does with `?`. -/
-theorem frame_reader_error_is_sticky (bs : Bytes) (t : PktType) (k : ErrKind)
-    (h : FrameReader.next t bs = .err k) : FrameReader.next t bs = .err k := h
+/-- After an error `FrameReader` does NOT advance (`FrStep.err` carries no new buffer: unlike `PacketReader` the
+reader keeps its payload), so asking again yields the same error for ever — witness: a non-empty payload that
+errs.  A caller must stop at the first error, as `read_plain_packet` does with `?`; a
+`for f in reader.flatten()` would spin. -/
+theorem frame_reader_error_is_sticky :
+    ∃ (bs : Bytes) (t : PktType) (k : ErrKind), bs ≠ [] ∧ FrameReader.next t bs = .err k :=
+  ⟨[0x1e], .initial, .wrongType, by decide, by decide⟩
 
 /-- The whole payload as `read_plain_packet` decodes it: no panic and it terminates within `len + 1` reader
 calls, for every byte string and packet type. -/
